@@ -35,4 +35,13 @@ def replay {α : Type} (dec : Bytes → Option α) (file : Bytes) : Scan α := s
     placeholder record appended when there is none. -/
 def repaired (file : Bytes) (good : Nat) : Bytes := file.take good
 
+/-- The loop shared by `AppendEntries` and `Compact` (log.go): every entry is given the
+    current end of the file as its offset, then its record is written there. -/
+def writeSeq (file : Bytes) : List SEntry → Bytes × List SEntry
+  | [] => (file, [])
+  | e :: es =>
+    let e' : SEntry := { e with offset := file.length }
+    let r := writeSeq (file ++ frame (encodeLogBody e')) es
+    (r.1, e' :: r.2)
+
 end Raft.LogFile
